@@ -1,10 +1,14 @@
 """C03 -- positions drawn in/on a region lie in it and are uniformly distributed.
 
-One run = one region (primitive or A.intersect/union/difference(B)) with tape-chosen parameters
-and a batch of draws through the RNG seam.  Oracles: independent membership predicate
-(simverif.regionref), exact law by enumeration of every RNG outcome for discrete regions,
-seeded chi-square against a quasi-Monte-Carlo integral of the membership predicate for
-continuous ones, adversarial scripted draws.
+Two workload families, chosen by the first tape draw:
+* fixed regions (13 in 17 runs): one region (primitive or A.intersect/union/difference(B)) with tape-chosen
+  parameters and a batch of draws through the RNG seam.  Oracles: independent membership predicate
+  (simverif.regionref), exact law by enumeration of every RNG outcome for discrete regions, seeded chi-square
+  against a quasi-Monte-Carlo integral of the membership predicate for continuous ones, adversarial scripted draws.
+* lazy regions across scenes (4 in 17 runs, simverif.checks.c03lazy): a compiled Scenic program places a
+  Point / Object in/on a region with RANDOM parameters; several consecutive scenes of the same compiled scenario
+  (two scenarios interleaved) are judged against the region rebuilt from each scene's own parameter values --
+  membership per scene, exact law per parameter value for point set / grid x region.
 """
 
 import copy
@@ -30,12 +34,17 @@ RULE = (
     "or its surface, voxelised mesh, polygon with holes / multipolygon, circle, sector, rectangle, polyline, 3D path, point set, "
     "grid; random size, offset, rotation, height) or a pairwise intersect/union/difference with a second region placed to "
     "overlap it (via A.op(B), or 1 in 4 via the generic Intersection/Union/DifferenceRegion classes); N seeded draws + scripted "
-    "adversarial draws (+ the exhaustive RNG tree for discrete regions); distinct = digest of the region description; "
-    "non-trivial = composition, or rotated, or at non-zero height")
+    "adversarial draws (+ the exhaustive RNG tree for discrete regions); OR (4 in 17 runs) one or two compiled Scenic programs "
+    "placing a Point/Object in/on a region whose heading / position / size / radius / height / angle are Range, Uniform or "
+    "DiscreteRange values (primitive, point set or grid x region, intersect/union/difference), 3-12 consecutive scenes per "
+    "scenario, the two scenarios interleaved, + the whole RNG tree of scenario.generate for discrete programs; distinct = digest "
+    "of the region description / program text; non-trivial = composition, or rotated, or at non-zero height, or a lazy program")
 COMPONENTS = {
     "real": ["scenic.core.regions samplers (uniformPointInner of every class, generic intersection/union/difference samplers, "
              "point-set intersection sampler)", "Region.uniformPointIn + Samplable.sample/sampleAll",
-             "scenic.core.geometry triangulation", "trimesh sampling / boolean / voxel code", "shapely set operations"],
+             "scenic.core.geometry triangulation", "trimesh sampling / boolean / voxel code", "shapely set operations",
+             "lazy workload: scenic parser/compiler (scenarioFromString), pruning, Scenario.generate rejection loop, "
+             "lazy region construction + sampleGiven of region classes and of Intersection/Union/DifferenceRegion across scenes"],
     "stub": ["RNG back end behind random.* (seeded Mersenne Twister, branching enumerator, scripted sequences)",
              "numpy.random global state (seeded from the tape)"]}
 ASSUMPTIONS = [
@@ -50,6 +59,9 @@ ASSUMPTIONS = [
     "compositions the library cannot build or sample (NotImplementedError, missing circumcircle, undefined sampling, "
     "ZeroDivisionError / RecursionError inside the library) are counted as refused, not judged",
     "a violation is attributed to a known-finding key only if the same draws are clean under that defect's alternative reference set",
+    "lazy workload: the region of a scene is rebuilt from the parameter values the scene reports (global params); positions of "
+    "continuous lazy regions are judged for membership only (one draw per scene); programs the library cannot compile "
+    "(union of lazy polygons recurses, empty fixed region) are counted as refused",
 ]
 
 TIER = "quick"
@@ -400,7 +412,9 @@ def defect_models(A, B, op, reg):
     shapely_path = not isinstance(reg, (R.IntersectionRegion, R.UnionRegion, R.DifferenceRegion))
     flat = all(R.toPolygon(x.reg) is not None for x in (A, B))
     if shapely_path and flat and any(getattr(x.reg, "z", 0) != 0 for x in (A, B)):
-        tr.append(("polygonal-composition-ignores-z", lambda r: relevel(r, 0.0)))
+        # after fix 338cec73 only a contact of measure zero (shapely Point / LineString result) still lands at z = 0
+        degenerate = isinstance(reg, (R.PointSetRegion, R.PolylineRegion)) and op == "intersect" and A.ref.dim == B.ref.dim == 2
+        tr.append(("degenerate-polygonal-intersection-ignores-z" if degenerate else "polygonal-composition-ignores-z", lambda r: relevel(r, 0.0)))
     if shapely_path and any(kite(x.ref) is not x.ref for x in (A, B)):
         tr.append(("sector-polygon-mask-cuts-arc", kite))
     for keys in ([t] for t in tr) if len(tr) < 2 else ([tr[0]], [tr[1]], tr):
